@@ -340,6 +340,9 @@ def _judge_seq(va, vb, op, out, level, mosw, add, prop_order, prop_cons):
 
     if raised:
         if not out['merge_error']:
+            if not (an.unresolved or an.dups or an.degenerate or an.dup_or_apply or an.optional or out['injected']):
+                # the protocol's result was not produced (C12 reports the exception class itself)
+                add(prop_order, 'resolvable %s crashed with %s instead of being applied' % (t, out['exc']))
             return
         # a MosMergeError is acceptable iff something is wrong with the message
         if not (an.unresolved or an.dups or an.degenerate or an.blank_end or an.dup_or_apply or an.optional):
@@ -381,6 +384,9 @@ def _judge_seq(va, vb, op, out, level, mosw, add, prop_order, prop_cons):
                 # every reference resolves; only carried duplicates are skipped: where the others land is C01's too
                 add(prop_order, '%s (with skipped duplicates): %r -> %r, expected %r' % (t, seqA, seqB, an.expected))
         else:
+            missing_carried = [i for i in an.carried if i not in seqB]
+            if missing_carried:
+                add('C04.payload', '%s: carried %s %r does not appear in the running order' % (t, level, missing_carried))
             ignored = _ignored(seqA, seqB, an, op)
             if ignored:
                 add('C06.all-ids', '%s: listed id(s) %r were not acted upon: %r -> %r' % (t, ignored, seqA, seqB))
